@@ -16,7 +16,7 @@ RULE = ("valid sequences (1-3 positions, 1-3 channels, blueprint and raw-array c
 TRUST = ["C08 statement oracle: repeated identical calls must return identical results and the final description / "
          "forge must equal the initial ones, on the implementation alone"]
 
-READS = ["forge", "awg", "seqx", "seqxf", "descr", "json", "check", "points", "duration", "channels", "eq"]
+READS = ["forge", "awg", "seqx", "seqxf", "descr", "json", "check", "points", "duration", "channels", "eq", "sr"]
 
 
 def generate(rng, tier):
@@ -58,7 +58,7 @@ def gen_seq_case(rng):
         op = {"forge": ("OSForge", s, rng.random() < 0.5, rng.random() < 0.5, rng.random() < 0.5),
               "awg": ("OSAwg", s, ("slice", None, None, None)), "seqx": ("OSSeqx", s, False), "seqxf": ("OSSeqx", s, True),
               "descr": ("OSDescr", s), "json": ("SFromJson", s, scratch), "check": ("OSCheck", s), "points": ("OSPoints", s),
-              "duration": ("OSDuration", s), "channels": ("OSChannels", s), "eq": ("OSEq", s, cp)}[k]
+              "duration": ("OSDuration", s), "channels": ("OSChannels", s), "eq": ("OSEq", s, cp), "sr": ("OSSR", s)}[k]
         body.append(op)
         calls.append(k)
     post = [("OSDescr", s), ("OSForge", s, True, True, False), ("OSEq", s, cp)]
